@@ -90,7 +90,7 @@ EXPORT errno_t _strlastchar_s_chk(char *dest, rsize_t dmax, char c,
         CHK_DEST_OVR("strlastchar_s", destbos)
     }
 
-    while (*dest && dmax) {
+    while (dmax && *dest) {
 
         if (*dest == c) {
             *lastp = dest;
